@@ -419,6 +419,7 @@ theorem slotTy_cons (t : FTy) (s : Seg) (r : Path) (d : FVal) :
   cases t with
   | str => simp [slotTy, mapOf, structOf]
   | int => simp [slotTy, mapOf, structOf]
+  | opq k n => simp [slotTy, mapOf, structOf]
   | any => simp [slotTy, mapOf]
   | map e => simp [slotTy, mapOf]
   | struct n fs =>
@@ -730,6 +731,9 @@ theorem extractTy_slotTy : ∀ (p : Path) (t x : FTy) (i : Bool),
     | int =>
       simp only [extractTy, structOf] at h
       by_cases hr : r.isEmpty = true <;> simp [hr] at h
+    | opq k n =>
+      simp only [extractTy, structOf] at h
+      by_cases hr : r.isEmpty = true <;> simp [hr] at h
 
 theorem takeStep_ok (f : TakeFacts) (ty : FTy) (val : FVal) (via : Bool) (s : Seg) (st : FTy) (v : FVal)
     (h : takeStep f (some (ty, val)) via s = .ok (st, v)) :
@@ -836,7 +840,7 @@ theorem assign_of_validated (f : TakeFacts) (pt st : FTy) (v : FVal) (m : Mappin
         · simp only [hpI, if_true, Option.some.injEq] at hv
           subst hv
           cases a with
-          | none => simp [runtimeCheck] at hc
+          | none => simp only [runtimeCheck] at hc; simp [store, hc]
           | some x => obtain ⟨ty, w⟩ := x; simp only [runtimeCheck] at hc; simp [store, hc]
         · simp only [hpI, if_false, Bool.false_eq_true] at hv
           have hpI' : pI = false := by simpa using hpI
@@ -855,7 +859,7 @@ theorem assign_of_validated (f : TakeFacts) (pt st : FTy) (v : FVal) (m : Mappin
               · simp only [h1, h2, h3, if_false, if_true, Option.some.injEq] at hv
                 subst hv
                 cases a with
-                | none => simp only [runtimeCheck, Bool.not_false, Bool.true_and] at hc; simp [store, hc]
+                | none => simp only [runtimeCheck] at hc; simp [store, hc]
                 | some x => obtain ⟨ty, w⟩ := x; simp only [runtimeCheck] at hc; simp [store, hc]
               · simp [h1, h2, h3] at hv
 
@@ -916,6 +920,24 @@ theorem fieldMapE_no_panic (allow : Bool) (pt : FTy) (v : FVal) : ∀ (ms : List
       | error e => simp only [ne_eq, Except.error.injEq]; intro he; subst he; exact ih hr
       | ok l' => simp
 
+/-- with its nil guard no run-time checker panics -/
+theorem checkPanics_guarded (vf : ValidateFacts) (hg : vf.ifaceCheckerGuardsNil = true)
+    (chk : Option (FTy × Bool)) (a : Taken) : checkPanics vf chk a = false := by
+  unfold checkPanics
+  split <;> simp [hg]
+
+theorem checkPanicE_guarded (vf : ValidateFacts) (hg : vf.ifaceCheckerGuardsNil = true)
+    (pt st : FTy) (ms : List Mapping) (l : List (Mapping × Taken)) : checkPanicE vf pt st ms l = false := by
+  unfold checkPanicE
+  rw [List.any_eq_false]
+  intro x _
+  obtain ⟨m, a⟩ := x
+  simp [checkPanics_guarded vf hg]
+
+theorem checkPanicE_expected (pt st : FTy) (ms : List Mapping) (l : List (Mapping × Taken)) :
+    checkPanicE Expected.C15.validate pt st ms l = false :=
+  checkPanicE_guarded _ rfl pt st ms l
+
 /-- every entry the edge handlers deliver can be assigned, whatever the destination holds -/
 theorem edgesMap_ok (allow : Bool) (st : FTy) : ∀ (es : List Edge) (l : List (Path × Taken)),
     (∀ e ∈ es, ∀ m ∈ e.ms, (validateOne Expected.C15.validate e.pt st m).isSome) →
@@ -926,7 +948,7 @@ theorem edgesMap_ok (allow : Bool) (st : FTy) : ∀ (es : List Edge) (l : List (
   | nil => intro l _ h; simp [edgesMap] at h; subst h; simp
   | cons e rest ih =>
     intro l hval h x hx d
-    simp only [edgesMap] at h
+    simp only [edgesMap, checkPanicE_expected, Bool.false_eq_true, if_false] at h
     cases hf : fieldMapE Expected.C15.take allow e.pt e.v e.ms with
     | error err => simp [hf] at h
     | ok le =>
@@ -962,7 +984,7 @@ theorem edgesMap_no_panic (allow : Bool) (st : FTy) : ∀ (es : List Edge),
   induction es with
   | nil => simp [edgesMap]
   | cons e rest ih =>
-    simp only [edgesMap]
+    simp only [edgesMap, checkPanicE_expected, Bool.false_eq_true, if_false]
     have hnp := fieldMapE_no_panic allow e.pt e.v e.ms
     cases hf : fieldMapE Expected.C15.take allow e.pt e.v e.ms with
     | error err => simp only [ne_eq, Except.error.injEq]; intro he; subst he; exact hnp hf
